@@ -249,6 +249,18 @@ def gen_site(rng, size=None, redirects=True, inline=True, offsite=True, deep=Fal
     # make sure the root links somewhere
     if not s.pages['/']['links'] and len(paths) > 1:
         s.pages['/']['links'].append((paths[1], False))
+    # frames within frames: documents embedded in documents, seven deep, the innermost with an image (how deep the
+    # requisites of requisites are followed is an option of its own, not the link depth)
+    if inline and rng.random() < 0.35:
+        hub = rng.choice([q for q in paths if s.pages[q]['kind'] == 'html'])
+        depth = rng.randint(2, 7)
+        for k in range(1, depth + 1):
+            nxt = [('/frame%d.html' % (k + 1), True)] if k < depth else [('/innermost.png', True)]
+            s.pages['/frame%d.html' % k] = {'kind': 'html', 'links': nxt + ([('/framepic%d.png' % k, True)] if rng.random() < 0.5 else [])}
+            if ('/framepic%d.png' % k, True) in s.pages['/frame%d.html' % k]['links']:
+                s.pages['/framepic%d.png' % k] = {'kind': 'leaf', 'ctype': 'image/png'}
+        s.pages['/innermost.png'] = {'kind': 'leaf', 'ctype': 'image/png'}
+        s.pages[hub]['links'].append(('/frame1.html', True))
     # twins that differ only in the letter case of path / query: different resources, both must be fetched
     if rng.random() < 0.3 and len(paths) > 1:
         t = rng.choice(paths[1:])
@@ -348,6 +360,8 @@ def gen_options(rng, levelfree=False):
         o['quota'] = rng.choice(['inf', '0'])
     if rng.random() < 0.2:
         o['sitemaps'] = True
+    if o['page_requisites'] and rng.random() < 0.3:
+        o['page_requisites_level'] = rng.choice([1, 2, 3, 7])     # its own limit, whatever -l says
     if rng.random() < 0.15 and not o['no_parent']:
         o['span_hosts'] = True        # the links to the other host (its own small site, same server, told apart by Host) are followed
     return o
@@ -392,6 +406,8 @@ def option_argv(o):
         a += ['--quota', o['quota']]          # 'inf' / '0': no quota, spelled out
     if o.get('sitemaps'):
         a.append('--sitemaps')
+    if o.get('page_requisites_level'):
+        a += ['--page-requisites-level', str(o['page_requisites_level'])]
     if o.get('span_hosts'):
         a.append('--span-hosts')
     if o.get('convert_links'):
@@ -457,7 +473,7 @@ class RefCrawl:
             return False
         if self.tries and not tries < self.tries:
             return False
-        if inline_level and inline_level > 5:
+        if inline_level and inline_level > (o.get('page_requisites_level') or 5):
             return False
         if o['level']:
             if inline_level:
